@@ -47,6 +47,7 @@ class Recorder:
         self.projectors: list[Callable[[], dict]] = []
         self.deferred: dict[int, dict] = {}
         self.timeout_us: dict[int, int] = {}
+        self.due_us: dict[int, int] = {}
         self.loop = None
         self.event_steps: set[int] = set()
         self.open_calls: set[int] = set()
@@ -77,6 +78,8 @@ class Recorder:
         self.timeout_us[self.mid(key.id_)] = int(params.execution_timeout.total_seconds() * 1e6)
         due = next_exec_us(params)
         exp = expiry_us(params)
+        if not getattr(self, "process_dead", False):      # (what the abandoned code of a dead process still computes reaches nobody)
+            self.due_us[self.mid(key.id_)] = due or 0
         return {
             "q": self.qid(key.queue), "topic": self.tid_(key.topic), "prio": int(key.priority),
             "due": ("ms", due) if due is not None else NO_TIME,   # NeverEarly is at ms resolution
@@ -149,7 +152,10 @@ class Recorder:
                       # earliest instant at which an in-flight message of a dead consumer may be reclaimed
                       "rdl": ("us", CLOCK.us + self.timeout_us.get(n, 600_000_000)) if new[3] else 0,
                       # the same with the take time truncated to the whole second (brokers keeping whole-second in-flight clocks)
-                      "rdls": ("us", CLOCK.us - CLOCK.us % 1_000_000 + self.timeout_us.get(n, 600_000_000)) if new[3] else 0}
+                      "rdls": ("us", CLOCK.us - CLOCK.us % 1_000_000 + self.timeout_us.get(n, 600_000_000)) if new[3] else 0,
+                      # a message that comes (back) to a waiting place: from when on the latency clause of C05 speaks for it again
+                      "ldl": ("us", max(self.due_us.get(n, 0), CLOCK.us) + self.latency_us)
+                      if (self.latency_us is not None and (new[0] or new[1]) and not new[3]) else 0}
                 d = self.deferred.pop(n, None)
                 if d is not None and d["k"] != k:
                     self.emit(d)
@@ -303,8 +309,12 @@ class Recorder:
         self.cons_obj[c] = cons
         q = self.qid(queue_name)
         cat = {"NORMAL": "n", "DELAYED": "d", "DEAD": "x"}[category.value]
+        extra = self.cons_extra()
         self.emit({"e": "cons", "c": c, "q": q, "cat": cat,
-                   "topics": sorted(self.tid_(t) for t in (topics or [])), **self.cons_extra()})
+                   "topics": sorted(self.tid_(t) for t in (topics or [])), **extra})
+        if getattr(self, "process_dead", False) and extra.get("w"):
+            # (a consumer that the abandoned code of a dead process still creates: it belongs to the dead, nobody is listening)
+            self.emit({"e": "crash", "cs": [c]})
 
         def wrap(name):
             orig = getattr(cons, name)
